@@ -17,7 +17,7 @@ EXPLANATION = (
     "the error types' own code (ArgParseError, ArgParseCauseBuffer) has every potential-panic site discharged by the buffer invariant len <= 128 (reviewed table); "
     "C20.2 the 128-byte cause buffer cannot overflow: the copy in write_str is dominated by len(s) <= CAP - self.len, both constructors return the fixed overflow error on failure, only write_str (and constant initialisers <= CAP) ever set the length, "
     "and the overflow message's declared length does not exceed its text; C20.3 every failure is a value: the parsers call neither exit nor panic, and -h/--help arms return an error value built from the help printer; "
-    "C20.4 sibling agreement between parser and help text: the option literals the generated decision tree accepts are exactly the option names its help printer lists plus -h/--help, and subcommand parsers accept exactly the command names the help text lists (including names passed to format_args! as arguments, read from the promoted constants' memory); C20.5 every argument is consumed or rejected: a derived ArgParse parser builds its Ok result only on a path on which args.next() returned None. "
+    "C20.4 sibling agreement between parser and help text: the option literals the generated decision tree accepts are exactly the option names its help printer lists plus -h/--help, and subcommand parsers accept exactly the command names the help text lists (including names passed to format_args! as arguments, read from the promoted constants' memory); C20.6 tokens are consumed only by the declared grammar (option-literal match, value conversion, error message: a closed call vocabulary) and a token unknown to the subcommand parser (Ok(None)) leads to an error; C20.5 every argument is consumed or rejected: a derived ArgParse parser builds its Ok result only on a path on which args.next() returned None. "
     "NOT decided: round-tripping for every value assignment and option order, acceptance of exactly the declared grammar beyond the literal sets, user FromStr impls (outside; their errors are routed into the cause buffer).")
 ASSUMPTIONS = ["the family of derived types = the types in tiny-cli/tests/derive_test.rs", "invariant of ArgParseCauseBuffer: len <= 128 (established by C20.2)"]
 
@@ -158,6 +158,36 @@ def run_d(ck, prog):
                     drained = any(f[0] == "variant" and f[2] == "None" and mentions_call(f[1], ctx, nexts) for f in facts)
                     ck.ob("C20.5", f"{short}|success-only-after-all-arguments-were-read", drained, fn=p, site=ctx.site(ob),
                           detail="the parser can return Ok without having read the arguments to the end (the loop is left early): trailing arguments - options after a subcommand, misspelt flags - are silently ignored instead of parsed or rejected")
+        # C20.6: the declared grammar is the only thing that decides what happens to a token
+        if p.endswith("::arg_parse"):
+            ALLOWED_CONSUMERS = ("Try::branch", "FromResidual::from_residual", "fmt::Arguments::<'a>::new", "ArgParseError::new_cause_fmt", "ArgParseError::new_cause_str", "UnixStr::as_str", "FromStr::from_str",
+                                 "Argument::<'_>::new_display", "Argument::<'_>::new_debug", "UnixStr::as_slice", "str::converts::from_utf8", "Option::<T>::is_none", "Option::<T>::is_some",
+                                 "SubcommandParse::subcommand_parse", "ArgParse::arg_parse", "Vec::<T, A>::push", "Iterator::next", "Result::<T, E>::map_err", "Result::<T, E>::ok", "convert::From::from", "convert::Into::into")
+            is_tok = lambda z: z[0] == "call" and (z[1] or "").endswith("Iterator::next")  # noqa: E731
+            odd = []
+            for bb, t in ctx.cfg.calls():
+                cal = t.get("callee") or ""
+                if cal.endswith(ALLOWED_CONSUMERS):
+                    continue
+                if any(any(is_tok(z) for z in walk_deep(a, ctx.prov, limit=80)) for a in ctx.args(bb)):
+                    odd.append((bb, cal))
+            ck.ob("C20.6", f"{short}|tokens-only-consumed-by-the-declared-grammar", not odd, fn=p, site=ctx.site(odd[0][0]) if odd else None,
+                  detail=f"an argument token is inspected by {sorted({c for _, c in odd})}: outside the option-literal match, the value conversion and the error message nothing may look at a token's bytes or length (e.g. refusing positional values that start with '-' breaks the round trip for `-17`)")
+            # a token the subcommand parser does not know (Ok(None)) is rejected, never silently dropped
+            for sb, t in ctx.cfg.calls(lambda t: (t.get("callee") or "").endswith("SubcommandParse::subcommand_parse")):
+                none_edges = []
+                for swb in ctx.cfg.live_blocks():
+                    if ctx.cfg.term(swb)["k"] != "switch":
+                        continue
+                    for e in ctx.cfg.succ[swb]:
+                        for f in ctx.edge_facts(e):
+                            if f[0] == "variant" and f[2] == "None" and mentions_call(f[1], ctx, [sb]):
+                                none_edges.append(e)
+                nexts_all = {bb for bb, t2 in ctx.cfg.calls(lambda t2: (t2.get("callee") or "").endswith("Iterator::next"))}
+                okb2 = {b["id"] for b in fn["blocks"] if any(s2["k"] == "assign" and s2["dst"]["l"] == 0 and not s2["dst"].get("p") and s2["rv"]["k"] == "agg" and s2["rv"].get("variant") == "Ok" for s2 in b["stmts"])}
+                rejected = bool(none_edges) and all(not (ctx.cfg.reachable_from(e.dst, avoid=nexts_all) & okb2) and any(rb in ctx.cfg.reachable_from(e.dst, avoid=nexts_all) for rb in ctx.cfg.return_blocks()) for e in none_edges)
+                ck.ob("C20.6", f"{short}|unknown-command-token-is-rejected", rejected, fn=p, site=ctx.site(sb),
+                      detail="the subcommand parser's `Ok(None)` (token is not one of my commands) is not turned into an error: unknown options, mistyped commands and junk tokens are accepted, and a junk token after a valid command resets it")
         # C20.4: literal sets vs help text
         lits = literals(ctx)
         n_lit += len(lits)
